@@ -5,6 +5,7 @@ import (
 	"go/ast"
 	"go/token"
 	"go/types"
+	"strconv"
 )
 
 // A small abstract interpreter for decision functions: functions that take a
@@ -59,6 +60,7 @@ type miniEval struct {
 	oracle func(ev *miniEval, call *ast.CallExpr) (mval, bool)
 	sel    func(ev *miniEval, sel *ast.SelectorExpr) (mval, bool)
 	undec  string
+	multi  bool // functions with several results: see ReturnStmt
 	steps  int
 	depth  int
 }
@@ -183,16 +185,62 @@ func (ev *miniEval) expr(e ast.Expr) mval {
 					isStrList = true
 				}
 			}
+			if ar, isArr := t.Underlying().(*types.Array); isArr {
+				if b, isBasic := ar.Elem().Underlying().(*types.Basic); isBasic && b.Kind() == types.String {
+					isStrList = true
+				}
+			}
 			if isStrList {
+				// positional or keyed (`[...]string{Bug: "Bug"}`): unnamed places hold ""
 				var l []string
+				next := 0
 				for _, el := range x.Elts {
+					at := next
+					if kv, isKV := el.(*ast.KeyValueExpr); isKV {
+						k := ev.expr(kv.Key)
+						if k.k != mvInt || k.i < 0 || k.i > 4096 {
+							return mval{}
+						}
+						at = int(k.i)
+						el = kv.Value
+					}
 					v := ev.expr(el)
 					if v.k != mvStr {
 						return mval{}
 					}
-					l = append(l, v.s)
+					for len(l) <= at {
+						l = append(l, "")
+					}
+					l[at] = v.s
+					next = at + 1
 				}
 				return mList(l)
+			}
+			// a table keyed by constants with string values (`map[Severity]string{Bug: "Bug"}`): a record
+			// whose field names are the keys' values
+			if mp, isMap := t.Underlying().(*types.Map); isMap {
+				if b, isBasic := mp.Elem().Underlying().(*types.Basic); isBasic && b.Kind() == types.String {
+					rec := map[string]mval{}
+					for _, el := range x.Elts {
+						kv, isKV := el.(*ast.KeyValueExpr)
+						if !isKV {
+							return mval{}
+						}
+						k, v := ev.expr(kv.Key), ev.expr(kv.Value)
+						if v.k != mvStr {
+							return mval{}
+						}
+						switch k.k {
+						case mvInt:
+							rec["#"+strconv.FormatInt(k.i, 10)] = v
+						case mvStr:
+							rec["$"+k.s] = v
+						default:
+							return mval{}
+						}
+					}
+					return mval{k: mvRec, rec: rec}
+				}
 			}
 		}
 	case *ast.UnaryExpr:
@@ -276,6 +324,21 @@ func (ev *miniEval) expr(e ast.Expr) mval {
 		}
 		if l.k == mvRecList && i.k == mvInt && i.i >= 0 && int(i.i) < len(l.recs) {
 			return mval{k: mvRec, rec: l.recs[i.i]}
+		}
+		if _, isMap := ev.info.TypeOf(x.X).Underlying().(*types.Map); isMap && l.k == mvRec {
+			key := ""
+			switch i.k {
+			case mvInt:
+				key = "#" + strconv.FormatInt(i.i, 10)
+			case mvStr:
+				key = "$" + i.s
+			default:
+				return mval{}
+			}
+			if v, ok := l.rec[key]; ok {
+				return v
+			}
+			return mStr("")
 		}
 	case *ast.CallExpr:
 		return ev.call(x)
@@ -575,6 +638,25 @@ func (ev *miniEval) stmt(st ast.Stmt, label string) mctl {
 		}
 		return mctl{}
 	case *ast.ReturnStmt:
+		if ev.multi && len(x.Results) > 1 {
+			// several results: a record with fields "0", "1", …; a result of type error is nil or "some error"
+			rec := map[string]mval{}
+			for i, r := range x.Results {
+				var v mval
+				if t := ev.info.TypeOf(r); isNilIdent(ev.info, r) {
+					v = mval{k: mvNil}
+				} else if _, isCall := ast.Unparen(r).(*ast.CallExpr); isCall && t != nil && types.Identical(t, types.Universe.Lookup("error").Type()) {
+					v = mval{k: mvRec, rec: map[string]mval{}}
+				} else {
+					v = ev.expr(r)
+				}
+				if v.k == mvUnknown {
+					ev.fail("returned value `" + exprStr(r) + "` is not decidable from the inputs")
+				}
+				rec[strconv.Itoa(i)] = v
+			}
+			return mctl{kind: 'r', ret: mval{k: mvRec, rec: rec}}
+		}
 		if len(x.Results) != 1 {
 			ev.fail("return without a single result")
 			return mctl{kind: 'r'}
